@@ -1254,8 +1254,10 @@ def _inv_trees(M, L):
 
 
 def emit_ref(M):
+    comp = [HDR % "EasyFEA/Models/HyperElastic/_laws.py + _state.py",
+            "From Coq Require Import Reals List.", "From EFP Require Import Gen_HyperLaws.", "Open Scope R_scope.", ""]
     out = [HDR % "EasyFEA/Models/HyperElastic/_laws.py + _state.py",
-           "From Coq Require Import Reals Lra Psatz List.", "From EFP Require Import C18_tac C18_kinematics Gen_HyperLaws.",
+           "From Coq Require Import Reals Lra Psatz List.", "From EFP Require Import C18_tac C18_kinematics Gen_HyperLaws Gen_HyperComp.",
            "Open Scope R_scope.", "",
            "Lemma rp_one : forall q, Rpower 1 q = 1.",
            "Proof. intro q. unfold Rpower. rewrite ln_1, Rmult_0_r. apply exp_0. Qed.",
@@ -1269,11 +1271,11 @@ def emit_ref(M):
         T = _inv_trees(M, L)
         cvsig = "(%s : R)" % " ".join(CV)
         Iarg = " ".join(coqR(T[k][0]) if k in T else "0" for k in INV)
-        out.append("(* ---- %s as a function of the components of C (and of the unit directions A, B) *)" % n)
-        out.append("Definition %s_W_C (%s : R) %s : R := %s_W %s %s." % (n, ps, cvsig, n, ps, Iarg))
+        comp.append("(* ---- %s as a function of the components of C (and of the unit directions A, B) *)" % n)
+        comp.append("Definition %s_W_C (%s : R) %s : R := %s_W %s %s." % (n, ps, cvsig, n, ps, Iarg))
         for m in range(6):
             terms = ["2 * %s_S%d %s %s * %s" % (n, k, ps, Iarg, coqR(T[k][1][m])) for k in INV if k in T]
-            out.append("Definition %s_stress%d (%s : R) %s : R := %s." % (n, m, ps, cvsig, " + ".join(terms)))
+            comp.append("Definition %s_stress%d (%s : R) %s : R := %s." % (n, m, ps, cvsig, " + ".join(terms)))
         out.append("Definition %s_W_F (%s : R) (F : M3) (%s : R) : R :=\n  %s_W_C %s (m11 (Cof F)) (m22 (Cof F)) (m33 (Cof F)) (m23 (Cof F)) (m13 (Cof F)) (m12 (Cof F)) %s."
                    % (n, ps, " ".join(CV[6:]), n, ps, " ".join(CV[6:])))
         out.append("Theorem %s_objectivity : forall %s Q F %s, mmul (mtr Q) Q = mid3 ->\n  %s_W_F %s (mmul Q F) %s = %s_W_F %s F %s."
@@ -1315,7 +1317,7 @@ def emit_ref(M):
     # hypotheses of the anisotropic reference theorem are satisfiable
     out.append("Example unit_orthogonal_directions_exist : let Ax := 1 in let Ay := 0 in let Az := 0 in let Bx := 0 in let By_ := 1 in let Bz := 0 in\n  Ax * Ax + Ay * Ay + Az * Az = 1 /\\ Bx * Bx + By_ * By_ + Bz * Bz = 1 /\\ Ax * Bx + Ay * By_ + Az * Bz = 0.")
     out.append("Proof. simpl. repeat split; ring. Qed.")
-    return "\n".join(out) + "\n"
+    return {"Gen_HyperComp.v": "\n".join(comp) + "\n", "Gen_HyperRef.v": "\n".join(out) + "\n"}
 
 
 # ----------------------------------------------------------------------------------------
@@ -1583,12 +1585,14 @@ def emit_cc(repo, tier="quick"):
         defs.append("Definition cc_w_%d : list R := [%s]." % (N, "; ".join(coqR(t) for t in ws)))
     head = [HDR % "EasyFEA/FEM/Operators/NonLinear.py __clenshaw_curtis"] + pre + ["From Interval Require Import Tactic.", "From EFP Require Import Gen_CC_defs.", ""]
     sm = list(head)
-    for N in CC_ALL:
+    SUMS = CC_ALL if tier != "quick" else [N for N in CC_ALL if N <= 17 or N == 33]   # quick: every rule up to 17 points and the cap
+    for N in SUMS:
         sm.append("Lemma cc_%d_weights_sum : Rabs (rsum cc_w_%d - 1) <= 1 / 10 ^ 12." % (N, N))
         sm.append("Proof. unfold cc_w_%d, rsum. interval with (i_prec 80). Qed." % N)
-    sm.append("(* the finite set of rules the code can use: nPoints = 1..33 (adaptive chain 1,3,5,9,17,33, capped by maxPoints = 33) *)")
-    sm.append("Theorem clenshaw_curtis_weights_sum :\n  " + " /\\\n  ".join("Rabs (rsum cc_w_%d - 1) <= 1 / 10 ^ 12" % N for N in CC_ALL) + ".")
-    sm.append("Proof. repeat split; [ %s ]. Qed." % " | ".join("exact cc_%d_weights_sum" % N for N in CC_ALL))
+    sm.append("(* the finite set of rules the code can use: nPoints = 1..33 (adaptive chain 1,3,5,9,17,33, capped by maxPoints = 33);")
+    sm.append("   thorough tier: all of 1..33; quick tier: 1..17 and 33 *)")
+    sm.append("Theorem clenshaw_curtis_weights_sum :\n  " + " /\\\n  ".join("Rabs (rsum cc_w_%d - 1) <= 1 / 10 ^ 12" % N for N in SUMS) + ".")
+    sm.append("Proof. repeat split; [ %s ]. Qed." % " | ".join("exact cc_%d_weights_sum" % N for N in SUMS))
     sm.append("Print Assumptions clenshaw_curtis_weights_sum.")
     # exactness on monomials x^d, d = 1 .. degree (quick: rules up to 9 points; thorough: all, thinned for 18..32)
     jobs = []
@@ -1620,3 +1624,186 @@ def emit_cc(repo, tier="quick"):
         m.append("Print Assumptions clenshaw_curtis_exactness_%d." % i)
         texts["Gen_CC_mom%d.v" % i] = "\n".join(m) + "\n"
     return texts
+
+
+# --- composite chain rule: assembled stress = gradient of e |-> W(I1(e), I2(e), I3(e), ...) ------------
+def _km_arg(m, var):
+    """tensor component of C as a function of the m-th Kelvin-Mandel coordinate e of E = (C - I)/2:
+       c = 2 e + 1 (normal), c = (sqrt 2 / 2) (2 e) (shear: c = v / sqrt 2 with v the Kelvin-Mandel coordinate of C)."""
+    e = ('v', var)
+    if m < 3:
+        return ('+', ('*', C(2), e), C(1))
+    return ('*', ('/', R2T, C(2)), ('+', ('*', C(2), e), C(0)))
+
+
+def law_tangent_trees(M, L):
+    """assembled tangent entries d2W[j][m] as rtrees over params, CV (np.sqrt(2) kept), exactly as the code sums them."""
+    S = M["state"]
+    T = _inv_trees(M, L)
+    Iarg = {"I%d" % k: (T[k][0] if k in T else ZERO) for k in INV}
+
+    def at(tree):
+        return subst(tree, Iarg)
+    ent = [[ZERO] * 6 for _ in range(6)]
+    for k, c in L["d2W1"].items():
+        rec = state_invariant(S, k, L["invs"].get(k, _default_args(k)))
+        for j in range(6):
+            for m in range(6):
+                ent[j][m] = ('+', ent[j][m], ('*', at(c), rec["d2"][j][m]))
+    for ((ja, aa), (kb, ab)), c in L["d2W2"].items():
+        ga = state_invariant(S, ja, aa)["d1"]
+        gb = state_invariant(S, kb, ab)["d1"]
+        for j in range(6):
+            for m in range(6):
+                ent[j][m] = ('+', ent[j][m], ('*', ('*', at(c), ga[j]), gb[m]))
+    return ent
+
+
+def emit_grad(M, L, tangent_block=True):
+    """Gen_HyperGrad_<law>.v: for every Kelvin-Mandel coordinate m of the Green-Lagrange strain, the assembled stress
+       component (the code's sum of coefficient x dIkdC[m]) is the derivative of the composite energy; and the
+       normal-normal block of the assembled tangent is the derivative of the assembled stress."""
+    n = L["name"]
+    ps = " ".join(L["params"])
+    T = _inv_trees(M, L)
+    if 3 not in T:
+        I3 = None
+    else:
+        I3 = T[3][0]
+    dirs = " ".join(CV[6:])
+    out = [HDR % ("EasyFEA/Models/HyperElastic/_laws.py class %s + _state.py" % n),
+           "From Coq Require Import Reals Lra Psatz List.", "From Coquelicot Require Import Coquelicot.",
+           "From EFP Require Import C18_tac C18_gradtac Gen_HyperLaws Gen_HyperComp.", "Open Scope R_scope.", ""]
+    names = []
+    for m in range(6):
+        others = [c for i, c in enumerate(COMP) if i != m]
+        def args(var):
+            return " ".join("(%s)" % coqR(_km_arg(m, var)) if i == m else c for i, c in enumerate(COMP))
+        hyp = ""
+        if I3 is not None:
+            hyp = "0 < %s ->\n  " % coqR(subst(I3, {COMP[m]: _km_arg(m, "e0")}))
+        nm = "%s_stress_is_energy_gradient_%d" % (n, m)
+        out.append("Lemma %s : forall %s %s %s e0,\n  %sis_derive (fun e => %s_W_C %s %s %s) e0 (%s_stress%d %s %s %s)."
+                   % (nm, ps, " ".join(others), dirs, hyp, n, ps, args("e"), dirs, n, m, ps, args("e0"), dirs))
+        unf = ", ".join(["%s_W_C" % n, "%s_stress%d" % (n, m), "%s_W" % n] + ["%s_S%d" % (n, k) for k in INV])
+        out.append("Proof. intros %s %s %s e0%s. unfold %s. gsolve %s. Qed." % (ps, " ".join(others), dirs, " H" if I3 is not None else "", unf, "H" if I3 is not None else "I"))
+        names.append(nm)
+    if tangent_block:
+        ent = law_tangent_trees(M, L)
+        sig = "(%s : R) (%s : R)" % (ps, " ".join(CV))
+        for j in range(3):
+            for m in range(3):
+                out.append("Definition %s_tangent%d%d %s : R := %s." % (n, j, m, sig, coqR(ent[j][m])))
+        for j in range(3):
+            for m in range(3):
+                others = [c for i, c in enumerate(COMP) if i != m]
+                def args(var):
+                    return " ".join("(%s)" % coqR(_km_arg(m, var)) if i == m else c for i, c in enumerate(COMP))
+                hyp = ""
+                if I3 is not None:
+                    hyp = "0 < %s ->\n  " % coqR(subst(I3, {COMP[m]: _km_arg(m, "e0")}))
+                nm = "%s_tangent_is_stress_derivative_%d%d" % (n, j, m)
+                out.append("Lemma %s : forall %s %s %s e0,\n  %sis_derive (fun e => %s_stress%d %s %s %s) e0 (%s_tangent%d%d %s %s %s)."
+                           % (nm, ps, " ".join(others), dirs, hyp, n, j, ps, args("e"), dirs, n, j, m, ps, args("e0"), dirs))
+                unf = ", ".join(["%s_stress%d" % (n, j), "%s_tangent%d%d" % (n, j, m)] + ["%s_S%d" % (n, k) for k in INV]
+                                + ["%s_T%d" % (n, k) for k in INV if k in L["d2W1"]] + ["%s_H%d%d" % (n, a, b) for a in INV for b in INV])
+                out.append("Proof. intros %s %s %s e0%s. unfold %s. gsolve %s. Qed." % (ps, " ".join(others), dirs, " H" if I3 is not None else "", unf, "H" if I3 is not None else "I"))
+                names.append(nm)
+    out.append("Print Assumptions %s_stress_is_energy_gradient_5." % n)
+    if tangent_block:
+        out.append("Print Assumptions %s_tangent_is_stress_derivative_00." % n)
+    return "\n".join(out) + "\n"
+
+
+# ----------------------------------------------------------------------------------------
+# HyperElasticState.__Build_De: the rows of the operator flat(grad w) -> Kelvin-Mandel sym(G^T grad w)
+# ----------------------------------------------------------------------------------------
+def read_build_de(repo):
+    path = os.path.join(repo, "EasyFEA", "Models", "HyperElastic", "_state.py")
+    mod = ast.parse(open(path).read())
+    cls = [n for n in mod.body if isinstance(n, ast.ClassDef) and n.name == "HyperElasticState"][0]
+    fn = [n for n in cls.body if isinstance(n, ast.FunctionDef) and n.name.endswith("__Build_De")]
+    if len(fn) != 1:
+        raise TranslateError("_state.py: __Build_De not found")
+    fn = fn[0]
+    where = "_state.py:__Build_De"
+    # the helper Add(line, values, coef=1.0) must store value*coef into D[:, :, line, column]
+    add = [n for n in fn.body if isinstance(n, ast.FunctionDef) and n.name == "Add"]
+    if len(add) != 1:
+        raise TranslateError("%s: helper Add not found" % where)
+    src = ast.unparse(add[0]).replace(" ", "")
+    if "D_e_pg[:,:,line,column]=value*coef" not in src or "forcolumn,valueinenumerate(values)" not in src:
+        raise TranslateError("%s: helper Add is not `D[:, :, line, column] = value * coef` over enumerate(values)" % where)
+    cM = None
+    for st in fn.body:
+        if isinstance(st, ast.Assign) and isinstance(st.targets[0], ast.Name) and st.targets[0].id == "cM":
+            if ast.unparse(st.value).replace(" ", "") not in ("2**(-1/2)", "1/np.sqrt(2)", "np.sqrt(2)/2"):
+                raise TranslateError("%s: cM = %s" % (where, ast.unparse(st.value)))
+            cM = True
+    if not cM:
+        raise TranslateError("%s: cM not found" % where)
+    branch = [n for n in fn.body if isinstance(n, ast.If) and ast.unparse(n.test).replace(" ", "") == "dim==2"]
+    if len(branch) != 1:
+        raise TranslateError("%s: dim dispatch" % where)
+    res = {}
+    for dim, stmts in ((2, branch[0].body), (3, branch[0].orelse)):
+        names = {}
+        rows = {}
+        for st in stmts:
+            if isinstance(st, ast.Assign) and isinstance(st.targets[0], ast.Tuple) and isinstance(st.value, ast.GeneratorExp):
+                g = st.value
+                elt = ast.unparse(g.elt).replace(" ", "")
+                it = ast.unparse(g.generators[0].iter).replace(" ", "")
+                import re
+                m = re.fullmatch(r"G\[:,:,(\d),i\]", elt)
+                if not m or it != "range(%d)" % dim or len(st.targets[0].elts) != dim:
+                    raise TranslateError("%s: binding %s" % (where, ast.unparse(st)))
+                for j, t in enumerate(st.targets[0].elts):
+                    names[t.id] = (int(m.group(1)), j)
+                continue
+            if isinstance(st, ast.Expr) and isinstance(st.value, ast.Call) and isinstance(st.value.func, ast.Name) and st.value.func.id == "Add":
+                a = st.value.args
+                if st.value.keywords or len(a) not in (2, 3) or not isinstance(a[1], ast.List):
+                    raise TranslateError("%s: Add call line %d" % (where, st.lineno))
+                r = _int(a[0], where)
+                scaled = False
+                if len(a) == 3:
+                    if not (isinstance(a[2], ast.Name) and a[2].id == "cM"):
+                        raise TranslateError("%s: Add coefficient line %d" % (where, st.lineno))
+                    scaled = True
+                vals = []
+                for e in a[1].elts:
+                    if isinstance(e, ast.Constant) and e.value == 0:
+                        vals.append(None)
+                    elif isinstance(e, ast.Name) and e.id in names:
+                        vals.append(names[e.id])
+                    else:
+                        raise TranslateError("%s: Add entry %s line %d" % (where, ast.unparse(e), st.lineno))
+                if len(vals) != dim * dim or r in rows:
+                    raise TranslateError("%s: Add row shape line %d" % (where, st.lineno))
+                rows[r] = (scaled, vals)
+                continue
+            raise TranslateError("%s: statement line %d" % (where, st.lineno))
+        nrow = 3 if dim == 2 else 6
+        if sorted(rows) != list(range(nrow)):
+            raise TranslateError("%s: rows %s for dim %d" % (where, sorted(rows), dim))
+        res[dim] = [rows[r] for r in range(nrow)]
+    return res
+
+
+def emit_de(repo):
+    D = read_build_de(repo)
+    out = [HDR % "EasyFEA/Models/HyperElastic/_state.py __Build_De",
+           "From Coq Require Import Reals List.", "From EFP Require Import C18_kinematics.", "Import ListNotations.", "Open Scope R_scope.", ""]
+    for dim, rows in sorted(D.items()):
+        txt = []
+        for scaled, vals in rows:
+            ent = []
+            for v in vals:
+                if v is None:
+                    ent.append("0")
+                else:
+                    ent.append("%sm%d%d G" % ("cM * " if scaled else "", v[0] + 1, v[1] + 1))
+            txt.append("[" + "; ".join(ent) + "]")
+        out.append("Definition De%d (cM : R) (G : M3) : list (list R) :=\n  [%s]." % (dim, ";\n   ".join(txt)))
+    return "\n".join(out) + "\n"
